@@ -111,6 +111,9 @@ def scenario_scope(res, pid, rng, tier):
     # members of an outer preserved block that lie behind a nested inner block; special-purpose addresses that are not private-use
     lines += ["ip route %s" % a for a in ("10.200.3.0 255.255.255.0 10.2.0.1", "10.1.255.255 10.2.0.0", "10.0.255.254 10.255.255.254")]
     lines += ["ip host sp%d %s" % (i, a) for i, a in enumerate(("127.0.0.1", "169.254.1.1", "198.18.0.1", "192.0.2.1", "100.64.0.1", "240.0.0.1", "203.0.113.9"))]
+    # library use: network objects instead of strings in the lists
+    variants += [dict(prefixes=None, nets=[ipaddress.ip_network("44.44.0.0/16"), "10.0.0.0/8"]),
+                 dict(prefixes=[ipaddress.ip_network("12.0.0.0/8")], nets=[ipaddress.ip_network("44.0.0.0/8"), ipaddress.ip_address("111.2.3.4")])]
     # addresses written directly next to non-ASCII letters and digits (delimiters like any other non-ASCII character)
     lines += [" description 到10.1.1.1的链路 到10.1.1.2", "lien privé172.16.5.9 et privé172.16.5.10", "接口2001:db8::77地址 接口2001:db8::78"]
     variants += [dict(prefixes=None, nets=["10.0.0.0/8", "172.16.0.0/12", "192.168.0.0/16"]), dict(prefixes=None, nets=["10.0.0.0/8", "10.1.0.0/16"]),
